@@ -135,3 +135,52 @@ func (c *Ctx) headerSizeExpr(l *core.Lin, v ssa.Value, depth int) bool {
 	}
 	return false
 }
+
+// acceptStep locates where a message body is accepted (size guard, reset, fill): in ReadUntypedMsg itself, or in
+// a method of the reader that ReadUntypedMsg tail-calls with the decoded size (its results returned unchanged).
+// It returns the function holding the step, the fill inside it, and - in the terms of ReadUntypedMsg - the size value.
+func (c *Ctx) acceptStep(rum *ssa.Function) (acc *ssa.Function, f fill, outerSize ssa.Value, ok bool) {
+	if fl := c.fills(rum); len(fl) == 1 {
+		return rum, fl[0], fl[0].size, true
+	}
+	for _, ci := range core.Calls(rum) {
+		call, isCall := ci.(*ssa.Call)
+		if !isCall {
+			continue
+		}
+		h := core.StaticCallee(call)
+		if h == nil || h == rum || !c.P.InPkg(h, "buffer") || len(h.Blocks) == 0 {
+			continue
+		}
+		fl := c.fills(h)
+		if len(fl) != 1 {
+			continue
+		}
+		pi := -1
+		for i, p := range h.Params {
+			if core.StripConv(fl[0].size) == ssa.Value(p) {
+				pi = i
+			}
+		}
+		if pi < 0 || pi >= len(call.Call.Args) {
+			continue
+		}
+		// rum hands the helper's results on unchanged wherever the call was reached
+		tail := true
+		for _, r := range returns(rum) {
+			if !core.InstrDominates(call, r) {
+				continue
+			}
+			for i, res := range r.Results {
+				ex, isEx := res.(*ssa.Extract)
+				if !isEx || ex.Tuple != ssa.Value(call) || ex.Index != i {
+					tail = false
+				}
+			}
+		}
+		if tail {
+			return h, fl[0], call.Call.Args[pi], true
+		}
+	}
+	return nil, fill{}, nil, false
+}
